@@ -109,21 +109,33 @@ PyEq(t, u)    == EqClass[t] = EqClass[u] /\ t # "f_nan" /\ u # "f_nan" /\ t # "d
 BoolIntMix(t, u) == (PyTypeOf[t] = "bool") # (PyTypeOf[u] = "bool")
 
 LitIdx(T) == 1..Len(T.v)
+\* "Enum instances will be loaded via its loaders [exact value].  bytes instances will be loaded via its loaders as well [base64].
+\*  Enum loaders have a higher priority over others, that is, they will be applied first."
+IsEnumTok(t)  == t \in DOMAIN EnumValueTok
+IsBytesTok(t) == PyTypeOf[t] = "bytes"
+EnumHits(T, t)  == {i \in LitIdx(T) : IsEnumTok(T.v[i]) /\ TypedEq(EnumValueTok[T.v[i]], t)}
+BytesHits(T, t) == {i \in LitIdx(T) : IsBytesTok(T.v[i]) /\ t \in DOMAIN CtorTok["b64"] /\ PyTypeOf[t] = "str" /\ CtorTok["b64"][t] = T.v[i]}
 \* "Loader accepts only values listed in Literal.  If strict_coercion is enabled, the loader will distinguish equal
 \*  bool and int instances, otherwise, they will be considered as same values."
 LitAcc(T, d, s) ==
   IF ~IsAtom(d) THEN {}
+  ELSE IF EnumHits(T, d.a) # {} THEN {Atom(T.v[i]) : i \in EnumHits(T, d.a)}
+  ELSE IF BytesHits(T, d.a) # {} THEN {Atom(T.v[i]) : i \in BytesHits(T, d.a)} \cup (IF \E i \in LitIdx(T) : TypedEq(T.v[i], d.a) THEN {d} ELSE {})
   ELSE IF \E i \in LitIdx(T) : TypedEq(T.v[i], d.a) THEN {d}
   ELSE LET eqs == {i \in LitIdx(T) : PyEq(T.v[i], d.a)} IN
        IF eqs = {} THEN {}
        ELSE IF s /\ \A i \in eqs : BoolIntMix(T.v[i], d.a) THEN {}
        ELSE {d} \cup {Atom(T.v[i]) : i \in eqs}
 \* an equal value of another non-bool type (2.0 for Literal[2]) -- "listed"? the documentation speaks about bool/int only
+\* ... "If the input value could be interpreted as several Literal members, the result will be undefined"; a datum that is
+\* only ==-equal to the value of an Enum member (5.0 for value 5) is a matter of the enum loader (C18), not decided here
 LitUndef(T, d, s) ==
   /\ IsAtom(d)
-  /\ ~\E i \in LitIdx(T) : TypedEq(T.v[i], d.a)
-  /\ \E i \in LitIdx(T) : PyEq(T.v[i], d.a) /\ ~(s /\ BoolIntMix(T.v[i], d.a))
-  /\ s
+  /\ \/ /\ ~\E i \in LitIdx(T) : TypedEq(T.v[i], d.a)
+        /\ \E i \in LitIdx(T) : PyEq(T.v[i], d.a) /\ ~(s /\ BoolIntMix(T.v[i], d.a))
+        /\ s
+     \/ \E i \in LitIdx(T) : IsEnumTok(T.v[i]) /\ PyEq(EnumValueTok[T.v[i]], d.a) /\ ~TypedEq(EnumValueTok[T.v[i]], d.a)
+     \/ (EnumHits(T, d.a) # {} /\ \E i \in LitIdx(T) : PyEq(T.v[i], d.a))
 
 (* ------------------------------ user supplied loaders ------------------------------- *)
 \* [k |-> "user", v |-> <<f>>]: a type served by the recipe  loader(T, f)  with f a plain CPython constructor (the common
